@@ -1,19 +1,19 @@
-\* C17 design spec, thorough tier: 2 keys x 3 threads, every operation (a nil constructor result is reached through the exhausted value ids), capacities {0,1}
+\* C17 design spec, quick tier: 2 keys x 2 threads, every operation, capacities {0,1}
 SPECIFICATION Spec
 CONSTANTS
   Keys = {k1, k2}
-  Threads = {t1, t2, t3}
+  Threads = {t1, t2}
   NoKey = nokey
   Caps = {0, 1}
   Cap0 = 1
   MaxVals = 2
   MaxDels = 1
-  GetModes = {"set", "only"}
+  GetModes = {"set", "only", "nil"}
   Ops = {"delete", "evict", "evictall", "setcap", "close", "closeforce"}
   RecheckRef = TRUE
   AtomicFin = TRUE
   RecheckClosed = TRUE
-  ClearDelf = TRUE
+  ClearDelf = FALSE
   CloseExcl = FALSE
 SYMMETRY Symm
 VIEW View
